@@ -146,8 +146,10 @@ def build(variant="plain"):
             mk.append("obj/secp_pre2.o: secp256k1/src/precomputed_ecmult_gen.c\n\tgcc $(CFLAGS) -O2 -DHAVE_CONFIG_H -Isecp256k1 -Isecp256k1/src -Isecp256k1/include -c $< -o $@")
             mk.append("obj/kerl.o: kerl/kerl.c\n\tgcc $(CFLAGS) -std=gnu99 -Ikerl -c $< -o $@")
             libobjs = [obj(s) for s in lib] + ["obj/secp.o", "obj/secp_pre1.o", "obj/secp_pre2.o", "obj/kerl.o"]
+            # the harness observes the arguments of the two signature verification entry points by link-time wrapping (no change to the tree)
+            wrap = " -Wl,--wrap=_ZNK7CPubKey6VerifyERK7uint256RKSt6vectorIhSaIhEE -Wl,--wrap=_ZNK11XOnlyPubKey13VerifySchnorrERK7uint2564SpanIKhE"
             for p, ss in progs.items():
-                mk.append("bin/%s: %s %s\n\t$(CXX) $(LDFLAGS) -o $@ %s %s -lreadline" % (p, " ".join(obj(s) for s in ss), " ".join(libobjs), " ".join(obj(s) for s in ss), " ".join(libobjs)))
+                mk.append("bin/%s: %s %s\n\t$(CXX) $(LDFLAGS)%s -o $@ %s %s -lreadline" % (p, " ".join(obj(s) for s in ss), " ".join(libobjs), wrap if p == "vh" else "", " ".join(obj(s) for s in ss), " ".join(libobjs)))
             mk.append("all: " + " ".join("bin/" + p for p in progs))
             os.makedirs(os.path.join(src, "obj")); os.makedirs(os.path.join(src, "bin"))
             with open(os.path.join(src, "Makefile.verif"), "w") as fh:
